@@ -94,16 +94,20 @@ impl Dirs {
 pub type CheckLog = Arc<Mutex<Vec<(u64, u64)>>>;
 
 thread_local! {
-    /// how the CacheBuilder is obtained: 0 CacheBuilder::new(), 1 CacheBuilder::default(), 2 a builder
-    /// that already produced another cache and was reset by take()
+    /// how the CacheBuilder is obtained and driven: 0 CacheBuilder::new(), 1 CacheBuilder::default(), 2 a builder
+    /// that already produced another cache and was reset by take(), 3 a checker set and then cleared / overridden,
+    /// 4 the options given in the opposite order
     pub static BUILDER_STYLE: std::cell::Cell<u8> = const { std::cell::Cell::new(0) };
     /// by-path set/put sources: false = a NamedTempFile (mode 0600), true = a file made with File::create
     /// (mode 0666 & !umask, as an ordinary application would)
     pub static PLAIN_FILE_SOURCE: std::cell::Cell<bool> = const { std::cell::Cell::new(false) };
+    /// by-path set/put sources: permission bits the application gives the file before handing it over (0 = leave as created)
+    pub static SOURCE_MODE: std::cell::Cell<u32> = const { std::cell::Cell::new(0) };
 }
 
 pub fn build(cfg: &StackCfg, dirs: &Dirs, log: Option<CheckLog>) -> Cache {
-    let mut b = match BUILDER_STYLE.with(|s| s.get()) {
+    let style = BUILDER_STYLE.with(|s| s.get());
+    let mut b = match style {
         1 => CacheBuilder::default(),
         2 => {
             let mut b = CacheBuilder::new();
@@ -113,23 +117,7 @@ pub fn build(cfg: &StackCfg, dirs: &Dirs, log: Option<CheckLog>) -> Cache {
         }
         _ => CacheBuilder::new(),
     };
-    if let Some((front, cap)) = &cfg.writer {
-        match front {
-            Front::Plain => b.plain_writer(&dirs.write, *cap),
-            Front::Sharded(n) => b.sharded_writer(&dirs.write, *n, *cap),
-        };
-    }
-    for (i, r) in cfg.readers.iter().enumerate() {
-        match r {
-            Front::Plain => b.plain_reader(&dirs.reads[i]),
-            Front::Sharded(n) => b.sharded_reader(&dirs.reads[i], *n),
-        };
-    }
-    // auto-sync is on by default: only ever switch it off explicitly
-    if !cfg.auto_sync {
-        b.auto_sync(false);
-    }
-    match cfg.checker {
+    let set_checker = |b: &mut CacheBuilder, log: Option<CheckLog>| match cfg.checker {
         Checker::None => {}
         Checker::ByteEq => {
             b.byte_equality_checker();
@@ -146,6 +134,47 @@ pub fn build(cfg: &StackCfg, dirs: &Dirs, log: Option<CheckLog>) -> Cache {
                 kismet_cache::byte_equality_checker(x, y)
             });
         }
+    };
+    // style 3: another checker was configured first and then cleared (or overridden by the real one);
+    // style 4: the options are given in the opposite order (checker and auto-sync before any directory, readers
+    // before the writer)
+    if style == 3 {
+        b.panicking_byte_equality_checker();
+        if cfg.checker == Checker::None {
+            b.clear_consistency_checker();
+        }
+    }
+    let add_writer = |b: &mut CacheBuilder| {
+        if let Some((front, cap)) = &cfg.writer {
+            match front {
+                Front::Plain => b.plain_writer(&dirs.write, *cap),
+                Front::Sharded(n) => b.sharded_writer(&dirs.write, *n, *cap),
+            };
+        }
+    };
+    let add_readers = |b: &mut CacheBuilder| {
+        for (i, r) in cfg.readers.iter().enumerate() {
+            match r {
+                Front::Plain => b.plain_reader(&dirs.reads[i]),
+                Front::Sharded(n) => b.sharded_reader(&dirs.reads[i], *n),
+            };
+        }
+    };
+    if style == 4 {
+        set_checker(&mut b, log);
+        if !cfg.auto_sync {
+            b.auto_sync(false);
+        }
+        add_readers(&mut b);
+        add_writer(&mut b);
+    } else {
+        add_writer(&mut b);
+        add_readers(&mut b);
+        // auto-sync is on by default: only ever switch it off explicitly
+        if !cfg.auto_sync {
+            b.auto_sync(false);
+        }
+        set_checker(&mut b, log);
     }
     b.take().build()
 }
@@ -435,6 +464,13 @@ fn exec_inner(cache: &Cache, dirs: &Dirs, op: &Op, opts: &ExecOpts, out: &mut Ou
                 Err(e) => return Res::Err(e.kind(), e.raw_os_error(), format!("app temp: {}", e)),
             };
             out.source = Some(src.path().to_owned());
+            let mode = SOURCE_MODE.with(|m| m.get());
+            if mode != 0 {
+                // the application's own doing, before the call: not part of the operation
+                use std::os::unix::fs::PermissionsExt;
+                let p = src.path().to_owned();
+                crate::shim::passthrough(|| std::fs::set_permissions(&p, std::fs::Permissions::from_mode(mode)).unwrap());
+            }
             let r = if matches!(op, Op::Set(..)) {
                 cache.set(k.key(), src.path())
             } else {
